@@ -12,12 +12,12 @@ class Prop(BaseProp):
     LEVEL = "exploration"
     RULE = ("C13's trees and options plus the quantifier's specials: subdirectories excluded by pattern, auto-"
             "excluded, EMPTY AFTER EXCLUSION (every .cmake file of a subdirectory matches a pattern), nested below "
-            "directories without CMake files; injected listing orders. Closure check over the written tree (every "
+            "directories without CMake files; sub-directories whose CMake files are symbolic links, symlinked input directory, explicit prefixes incl. the empty one (CLI and settings file); injected listing orders. Closure check over the written tree (every "
             "toctree entry has a generated target, every page / sub-index listed exactly once, one toctree, every page "
             "reachable from the top index by graph search) and comparison with the reference walk. Distinct = tree "
             "shape + pattern forms + options; non-trivial = recursive run over a tree with >=2 processed directories")
     ASSUMPTIONS = ["default module path separator (C14 inherits C13's option space)",
-                   "index title check is weak on purpose: top == prefix, others start with prefix and end with the "
+                   "index title check: top == prefix (given or default), others start with prefix and end with the "
                    "directory's base name"]
     HEADLINE = ["runs", "index_files_checked", "toctree_entries_checked", "pages_reached_from_top",
                 "subdirs_emptied_by_patterns"]
@@ -33,7 +33,9 @@ class Prop(BaseProp):
         c = fscase.build_case(rng)
         c.recursive = rng.random() < 0.85
         special = idx % 3 == 0
-        prefix = rng.choice([None, None, "Pfx"])
+        # an explicitly given prefix, the empty one included, names the top directory
+        prefix = rng.choice([None, None, "Pfx", "", "A b", "p.q"])
+        prefix_src = rng.choice(["cli", "sfile"])
         with runner.sandbox() as sb:
             pats = None
             if special and len(c.tree.dirs) > 1:
@@ -49,19 +51,18 @@ class Prop(BaseProp):
                     c.tree.files["keeptop.cmake"] = cmake_text("keeptop.cmake")
                 res.count("subdirs_emptied_by_patterns")
             order = fsrun.make_order(rng, rng.choice(fsrun.ORDER_MODES[:4]))
-            fscase.run_case(c, rng, sb, order, res, patterns=pats, allow_extra_input=False)
-            if prefix:
-                pass
+            fscase.run_case(c, rng, sb, order, res, patterns=pats, allow_extra_input=False, prefix=prefix, prefix_src=prefix_src)
+            res.see("prefix_kinds", "none" if prefix is None else "empty" if prefix == "" else prefix_src)
             wit = fscase.witness(c)
             res.count("runs")
-            res.sig = sig_hash([c.tree.shape(), sorted(c.forms), c.recursive, c.auto, special])
+            res.sig = sig_hash([c.tree.shape(), sorted(c.forms), c.recursive, c.auto, special, prefix])
             res.nontrivial = c.recursive and len(c.ref.processed_dirs) >= 2
             o = c.fr.outcome
             if not o.ok:
                 res.violate(o.crash_class() or f"exit:{o.exit_code}", str(o.exc)[:200], wit)
                 return res
             out = c.out_abs
-            top_prefix = "proj"
+            top_prefix = "proj" if prefix is None else prefix
             reached_pages, reached_idx = set(), set()
             # closure over what was written
             for rel in sorted(c.got):
